@@ -72,7 +72,14 @@ func histStarts(thorough bool) []histStart {
 			add(fmt.Sprintf("v%d %s nil receiver", ver, spec.LevelNames[level]), ver, level, func() any { return lib.Nil(ver, level) }, false, true, nil)
 			add(fmt.Sprintf("v%d %s fresh", ver, spec.LevelNames[level]), ver, level, func() any { return lib.New(ver, level) }, false, false, nil)
 		}
-		for si, s := range seeds(ver) {
+		vecs := seeds(ver)
+		if ver == 3 {
+			// Modified metrics that differ from their base metrics, in both directions
+			vecs = append(vecs,
+				"CVSS:3.0/AV:N/AC:L/PR:L/UI:R/S:U/C:L/I:H/A:H/E:F/RL:W/RC:R/AR:L/MAV:L/MPR:H/MS:C/MC:H",
+				"CVSS:3.1/AV:L/AC:H/PR:H/UI:N/S:C/C:H/I:L/A:N/CR:H/MAC:L/MUI:R/MS:U/MI:N/MA:H")
+		}
+		for si, s := range vecs {
 			s := s
 			for level := 0; level < 3; level++ {
 				level := level
@@ -102,6 +109,9 @@ func histStarts(thorough bool) []histStart {
 			ks := []int{2, len(toks) / 2, len(toks) - 1}
 			if !thorough && si > 0 {
 				ks = ks[1:2]
+			}
+			if si >= len(seeds(ver)) {
+				ks = nil
 			}
 			for _, k := range ks {
 				for _, bad := range []string{"AV:Q", "ZZ:N", toks[len(toks)-1]} {
@@ -480,8 +490,9 @@ func init() {
 	register("C15", "model_checking", func(r *ev.Run, thorough bool) {
 		r.Phase("history search", func() { histRun(r, thorough) })
 		r.Phase("vector processing orders", func() { processingOrders(r, thorough) })
+		r.Phase("neighbour processing orders", func() { neighbourOrders(r, thorough) })
 		r.Set("exhaustive", true)
-		r.Set("rule", "breadth-first search over operation sequences (queries: Score, Severity, GetError, Encode, String, BaseMetrics, TemporalMetrics, IsEmpty, report.New* en/ja, ExportWithString; single-field mutations; decodes of other colliding vectors on fresh objects) applied to live objects (decoded at every level and version, left behind by failed decodes, fresh, nil); state key = reflective dump of the live object + dump of every package-level variable of the six library packages (generated at check time from the current tree); successors by replay on a fresh object; invariants I1-I3 of DESIGN.md 5.3; plus all orders of processing 6 colliding vectors up to depth 3")
+		r.Set("rule", "breadth-first search over operation sequences (queries: Score, Severity, GetError, Encode, String, BaseMetrics, TemporalMetrics, IsEmpty, report.New* en/ja, ExportWithString; single-field mutations; decodes of other colliding vectors on fresh objects) applied to live objects (decoded at every level and version, left behind by failed decodes, fresh, nil); state key = reflective dump of the live object + dump of every package-level variable of the six library packages (generated at check time from the current tree); successors by replay on a fresh object; invariants I1-I3 of DESIGN.md 5.3; plus all orders of processing 6 colliding vectors up to depth 3/4, plus every ordered pair (u, v) of the single-metric neighbours (every alternative value of every metric, and the other version) of background vectors: v processed after u must give what v gives first")
 		r.Assume("results are compared between histories (differential oracle) and with a pristine child process; nothing is assumed about what the right result is")
 		r.Assume("private (unexported) state may change as long as observables and results agree; such changes only add states")
 	})
@@ -548,4 +559,88 @@ func processingOrders(r *ev.Run, thorough bool) {
 	rec(nil)
 	r.Add("processing_orders", n)
 	r.Add("evaluations", n)
+}
+
+// neighbourOrders: for background vectors B, the set N(B) = {B} + every vector that differs from B
+// in exactly one metric (all alternative values) + the same bodies under the other version; every
+// ordered pair (u, v) of N(B) is processed u then v on fresh objects in this one process, and v's
+// complete observables must equal those recorded the first time v was processed.  A cache keyed
+// by an incomplete or colliding digest of the metrics makes some pair differ.
+func neighbourOrders(r *ev.Run, thorough bool) {
+	type nv struct {
+		ver, level int
+		s          string
+	}
+	var sets [][]nv
+	for _, bg := range reportBackgrounds() {
+		var set []nv
+		for _, t := range deviationVectors(bg.tok, 1) {
+			for _, verLabel := range spec.V3Versions {
+				set = append(set, nv{3, 2, canonicalWritten(3, 2, verLabel, t)})
+			}
+		}
+		sets = append(sets, set)
+		if !thorough && len(sets) == 2 {
+			break
+		}
+	}
+	v2bgs := []map[string]string{
+		{"AV": "N", "AC": "L", "Au": "N", "C": "P", "I": "C", "A": "N", "E": "F", "RL": "OF", "RC": "C", "CDP": "LM", "TD": "M", "CR": "H", "IR": "M", "AR": "L"},
+		{"AV": "L", "AC": "H", "Au": "M", "C": "C", "I": "N", "A": "P", "E": "POC", "RL": "W", "RC": "UR", "CDP": "H", "TD": "H", "CR": "L", "IR": "H", "AR": "ND"},
+	}
+	for _, bg := range v2bgs {
+		var set []nv
+		set = append(set, nv{2, 2, canonicalWritten(2, 2, "", bg)})
+		for _, m := range spec.V2 {
+			for _, c := range m.Codes {
+				if c.Code == bg[m.Name] {
+					continue
+				}
+				t := copyTok(bg)
+				t[m.Name] = c.Code
+				set = append(set, nv{2, 2, canonicalWritten(2, 2, "", t)})
+			}
+		}
+		sets = append(sets, set)
+	}
+	process := func(v nv) string {
+		o, err, pan := lib.DecodeNew(v.ver, v.level, v.s)
+		if o == nil {
+			return fmt.Sprintf("rejected %s panic=%q", lib.Class(err), pan)
+		}
+		res := observables(o)
+		for lv := 0; lv < v.level; lv++ {
+			res += "|" + lib.Observe(lib.Sub(o, lv)).String()
+		}
+		res += "|" + observables(o) // and again after the sub-views were queried
+		return res
+	}
+	var pairs, vectors int64
+	for _, set := range sets {
+		first := map[string]string{}
+		vectors += int64(len(set))
+		for _, u := range set {
+			for _, v := range set {
+				pairs++
+				ru := process(u)
+				rv := process(v)
+				for _, x := range []struct {
+					v nv
+					r string
+				}{{u, ru}, {v, rv}} {
+					if exp, ok := first[x.v.s]; ok {
+						if x.r != exp {
+							r.Violate(ev.Violation{Kind: "result-depends-on-processing-order", Case: map[string]any{"processed_first": u.s, "then": v.s, "vector": x.v.s}, Observed: x.r, Expected: exp + "  (what the same vector gave the first time it was processed)"})
+							first[x.v.s] = x.r // report each divergence once
+						}
+					} else {
+						first[x.v.s] = x.r
+					}
+				}
+			}
+		}
+	}
+	r.Add("neighbour_vectors", vectors)
+	r.Add("neighbour_ordered_pairs", pairs)
+	r.Add("evaluations", pairs)
 }
